@@ -28,6 +28,7 @@ mod closure;
 mod optable;
 mod pools;
 mod units;
+mod xcheck;
 
 use explorer::{Ctx, ReplayTarget, Tier};
 use std::path::PathBuf;
